@@ -388,12 +388,31 @@ class FUdpSock:
 
 
 # ------------------------------------------------------------------ shared memory
+class _Seg:
+    """One named segment: an anonymous in-memory file (memfd).  Every attachment maps it separately, so closing an attachment
+    while views into it are alive fails exactly as multiprocessing.shared_memory does ("cannot close exported pointers
+    exist"), and attachments of different simulated processes do not pin each other.  Sparse: a multi-GiB segment costs
+    nothing until it is touched, so capacities beyond RAM can be configured."""
+
+    def __init__(self, name, size):
+        import os
+        self.size = size
+        self.fd = os.memfd_create("sim-" + name[:40])
+        os.ftruncate(self.fd, size)
+
+    def __del__(self):
+        try:
+            import os
+            os.close(self.fd)
+        except Exception:  # noqa
+            pass
+
+
 class FShm:
-    """POSIX-like named segments.  `virtual` segments (size above the materialisation cap) record their
-    size only, so capacities beyond RAM can be configured."""
-    MATERIALISE_CAP = 1 << 22
+    """POSIX-like named segments: create / attach / unlink (unlink removes the name, existing mappings stay valid)."""
 
     def __init__(self, name=None, create=False, size=0):
+        import mmap
         K.check_killed()
         seg = K.segments
         if create:
@@ -404,34 +423,41 @@ class FShm:
                 raise OSError(12, "ENOMEM (injected)")
             if size <= 0:
                 raise ValueError("'size' must be a positive number different from zero")
-            seg[name] = bytearray(min(size, self.MATERIALISE_CAP))
+            seg[name] = _Seg(name, size)
             K.seg_virtual[name] = size
             emit("shm_create", name, size)
         elif name not in seg:
             raise FileNotFoundError(name)
-        self._name, self._b = name, seg[name]
-        self.size = K.seg_virtual.get(name, len(self._b))
-        self.buf = memoryview(self._b)
+        self._name, self._seg = name, seg[name]
+        self.size = self._seg.size
+        self._mmap = mmap.mmap(self._seg.fd, self.size)
+        self.buf = memoryview(self._mmap)
         self.name = name
         K.step("shm.open", name, create)
 
     def close(self):
         if self.buf is not None:
-            try:
-                self.buf.release()
-            except BufferError:
-                # mirrors multiprocessing: "cannot close exported pointers exist"
-                raise
-        self.buf = None
+            self.buf.release()
+            self.buf = None
+        if self._mmap is not None:
+            self._mmap.close()      # BufferError("cannot close exported pointers exist") while views are alive
+            self._mmap = None
 
     def unlink(self):
         K.check_killed()
-        if K.segments.get(self._name) is not self._b:
+        if K.segments.get(self._name) is not self._seg:
             raise FileNotFoundError(self._name)
         del K.segments[self._name]
         K.seg_virtual.pop(self._name, None)
         emit("shm_unlink", self._name)
         K.step("shm.unlink", self._name)
+
+    def __del__(self):
+        try:
+            if self._mmap is not None:
+                self._mmap.close()
+        except Exception:  # noqa
+            pass
 
 
 def segments_total():
